@@ -272,16 +272,16 @@ PROPS = {
     },
     "C18": {
         "level": "proof",
-        "lean_modules": ["CrabProofs.Props.C18", "CrabProofs.Props.C18Crawler"],
+        "lean_modules": ["CrabProofs.Props.C18", "CrabProofs.Props.C18Crawler", "CrabProofs.Props.C18Ctrl"],
         "components": [{"harness": "h_xform", "quick": 12000, "thorough": 400000, "shards": 4,
                         "nontrivial": lambda l: l.startswith("(live."),
                         "accept": lambda v, req, msg: "[C18]" in msg or (v in ("DRIFT", "BAD") and req.startswith("(live."))},
                        {"harness": "h_crawl", "quick": 6000, "thorough": 200000, "shards": 8,
                         "nontrivial": lambda l: l.startswith("(crawl.") and "(assert" in l,
                         "accept": lambda v, req, msg: "[C18]" in msg or (v in ("DRIFT", "BAD") and req.startswith("(crawl."))}],
-        "rule": "same program generator; the real liveness_analysis results (live at block end, dead_exit) are compared with the model of the coded equations run on the implementation's own block order, with the specification liveness (implementation dead must be spec dead), and by paired executions differing only in a reported-dead variable. Assertion crawler: the real assertion_crawler (data-only and data+control, block-entry and per-statement answers) on generated programs (if/else with complementary assumes, loops, early returns, error sinks, assignment chains, killing redefinitions, havoc, select); for every (point, assertion, variable not reported) paired executions differing only in that variable are compared; answers are also compared with the Lean model and must pass the proved-sufficient decidable data-flow condition isDataSol",
-        "assumptions": ["block order of run_bwd_fixpo and the control-dependence graph are inputs of the models (read from the implementation; the cdg is compared with the Ferrante-Ottenstein-Warren definition when every block reaches the exit)", "control dependence is judged only at deterministic branches (complementary assumes)"],
-        "trusted_base": COMMON_TB + ["models: CrabModel/Transform/{TIR,Liveness}.lean"],
+        "rule": "same program generator; the real liveness_analysis results (live at block end, dead_exit) are compared with the model of the coded equations run on the implementation's own block order, with the specification liveness (implementation dead must be spec dead), and by paired executions differing only in a reported-dead variable. Assertion crawler: the real assertion_crawler (data-only and data+control, block-entry and per-statement answers) on generated programs (if/else with complementary assumes, loops, early returns, error sinks, assignment chains, killing redefinitions, havoc, select); for every (point, assertion, variable not reported) paired executions differing only in that variable are compared; answers are also compared with the Lean model (repaired variant, exact equality) and must pass the proved-sufficient decidable conditions isDataSol and isCtrlSol; the real control-dependence graph is compared with the model of cdg.hpp (immediate post-dominators by their specification, runner walk, escape rule) and must pass isCdgOK",
+        "assumptions": ["block order of run_bwd_fixpo is an input of the models (read from the implementation); boost's lengauer_tarjan_dominator_tree is modelled by its specification (closest strict post-dominator) and tied by the graph comparison on every line", "control dependence is judged only at deterministic branches (complementary assumes)"],
+        "trusted_base": COMMON_TB + ["models: CrabModel/Transform/{TIR,Liveness,Crawler,Cdg}.lean"],
     },
     "C02": {
         "level": "proof",
